@@ -4,7 +4,9 @@ import (
 	"fmt"
 	"go/token"
 	"go/types"
+	"math"
 	"math/big"
+	"strconv"
 	"strings"
 
 	"golang.org/x/tools/go/ssa"
@@ -281,7 +283,56 @@ func (ex *Exec) nameOf(args []Value) string {
 	return name
 }
 
+func (ex *Exec) concVal(name string) (string, bool) {
+	if ex.Concrete == nil {
+		return "", false
+	}
+	v, ok := ex.Concrete[name]
+	if !ok {
+		return "1", true // same default as the native runtime for floats; ints use 0
+	}
+	return v, true
+}
+
+func parseRatText(v string) *big.Rat {
+	if strings.HasPrefix(v, "fp:") {
+		parts := strings.Split(v, ":")
+		bits, _ := strconv.ParseUint(parts[1], 16, 64)
+		f := math.Float64frombits(bits)
+		if parts[2] == "32" {
+			f = float64(math.Float32frombits(uint32(bits)))
+		}
+		r := new(big.Rat)
+		r.SetFloat64(f)
+		return r
+	}
+	if r, ok := new(big.Rat).SetString(v); ok {
+		return r
+	}
+	return big.NewRat(1, 1)
+}
+
+func parseIntText(v string, bits int) int64 {
+	if strings.HasPrefix(v, "bv:") {
+		parts := strings.Split(v, ":")
+		u, _ := strconv.ParseUint(parts[1], 10, 64)
+		return wrapInt(int64(u), bits, false)
+	}
+	i, _ := strconv.ParseInt(v, 10, 64)
+	return i
+}
+
 func (ex *Exec) symFloat(name string, bits int) Flt {
+	if v, ok := ex.concVal(name); ok {
+		r := parseRatText(v)
+		if ex.FPMode {
+			f, _ := r.Float64()
+			return ex.fltC(f, bits)
+		}
+		// the native run sees the float64 nearest to the model value
+		f, _ := r.Float64()
+		return ex.fltC(f, bits)
+	}
 	if ex.FPMode {
 		s := SFP64
 		if bits == 32 {
@@ -315,12 +366,26 @@ func (ex *Exec) vrt(g *G, f *Frame, name string, fn *ssa.Function, args []Value)
 		return Slice{A: a}, false
 	case "Int", "Int8", "Int16", "Int32", "Int64":
 		bits := map[string]int{"Int": 64, "Int8": 8, "Int16": 16, "Int32": 32, "Int64": 64}[name]
+		if ex.Concrete != nil {
+			v, ok := ex.Concrete[ex.nameOf(args)]
+			if !ok {
+				v = "0"
+			}
+			return mkInt(parseIntText(v, bits), bits, false), false
+		}
 		return Int{Bits: uint8(bits), T: ex.nondetVar(ex.nameOf(args), bvSort(bits))}, false
 	case "Num":
 		// generic: Num[T](name, idx...) T
 		rt := fn.Signature.Results().At(0).Type()
 		nm := ex.nameOf(args)
 		if bits, uns, ok := intInfo(rt); ok {
+			if ex.Concrete != nil {
+				v, ok := ex.Concrete[nm]
+				if !ok {
+					v = "0"
+				}
+				return mkInt(parseIntText(v, bits), bits, uns), false
+			}
 			return Int{Bits: uint8(bits), Uns: uns, T: ex.nondetVar(nm, bvSort(bits))}, false
 		}
 		if bits, ok := floatBits(rt); ok {
@@ -328,6 +393,9 @@ func (ex *Exec) vrt(g *G, f *Frame, name string, fn *ssa.Function, args []Value)
 		}
 		panic(unsupported{"vrt.Num of " + rt.String()})
 	case "Bool":
+		if ex.Concrete != nil {
+			return Bool{C: ex.Concrete[ex.nameOf(args)] == "true"}, false
+		}
 		return Bool{T: ex.nondetVar(ex.nameOf(args), SBool)}, false
 	case "Name":
 		return Str{C: ex.nameOf(args)}, false
@@ -365,6 +433,9 @@ func (ex *Exec) vrt(g *G, f *Frame, name string, fn *ssa.Function, args []Value)
 		} else {
 			b = args[1].(Bool)
 		}
+		if ex.Concrete != nil && b.T == nil {
+			ex.Obs = append(ex.Obs, Observation{label, fmt.Sprint(b.C)})
+		}
 		ex.assertTerm(label, ex.boolTerm(b), known)
 		return nil, false
 	case "AssertEq", "AssertEqAt", "KnownFindingEq", "KnownFindingEqAt":
@@ -389,6 +460,9 @@ func (ex *Exec) vrt(g *G, f *Frame, name string, fn *ssa.Function, args []Value)
 		}
 		if ib, ok := b.(Iface); ok {
 			b = ib.V
+		}
+		if ex.Concrete != nil {
+			ex.Obs = append(ex.Obs, Observation{label, ex.obsText(a)})
 		}
 		ex.assertTerm(label, ex.eqTerm(a, b), known)
 		return nil, false
@@ -526,6 +600,31 @@ func (ex *Exec) vrt(g *G, f *Frame, name string, fn *ssa.Function, args []Value)
 	panic(unsupported{"vrt." + name})
 }
 
+// obsText renders a concrete scalar for comparison with the native run.
+func (ex *Exec) obsText(v Value) string {
+	switch x := v.(type) {
+	case Flt:
+		if x.T != nil {
+			return "?"
+		}
+		if ex.FPMode {
+			return strconv.FormatFloat(x.F, 'g', 17, 64)
+		}
+		f, _ := x.R.Float64()
+		return strconv.FormatFloat(f, 'g', 17, 64)
+	case Int:
+		if x.T != nil {
+			return "?"
+		}
+		return strconv.FormatInt(x.C, 10)
+	case Bool:
+		return fmt.Sprint(x.C)
+	case Str:
+		return x.C
+	}
+	return "?"
+}
+
 func (ex *Exec) freeze(v Value, depth int) {
 	if depth > 8 {
 		return
@@ -573,6 +672,18 @@ func (ex *Exec) freezeSlots(v Value, depth int) {
 // assertTerm discharges one assertion on the current path.
 func (ex *Exec) assertTerm(label string, a *Term, known string) {
 	rec := AssertRec{Label: label, Known: known}
+	if known != "" && ex.knownSeen[known] {
+		// the recorded finding already has its witness on this path: further
+		// positions routed to the same id are exempt and not re-solved
+		rec.Result = "exempt"
+		ex.Asserts = append(ex.Asserts, rec)
+		return
+	}
+	defer func() {
+		if known != "" && rec.Result == "violated" {
+			ex.knownSeen[known] = true
+		}
+	}()
 	if a.isConst {
 		if a.bv {
 			rec.Result = "trivial"
